@@ -1,3 +1,417 @@
--- stub: the driver of C16 is not built yet
+/-
+  Line-protocol driver of C16 (value semantics).  `M <request>` answers with the model's observation,
+  `P <request> ## <observation>` evaluates the property's statement on the implementation's observation.
+
+  Strings and bytes are hex tokens (`-` = empty).  Message literal `MSG = <uuid>/<payload>/<metadata>`:
+  payload `~` = nil slice, `-` = empty; metadata `~` = nil map, `-` = empty map, else `k=v,k=v`
+  (requests: insertion order, keys unique; observations: sorted by key).
+
+    pair MSG MSG                    -> four letters t/f: a.Equals(b) b.Equals(a) a.Equals(a) b.Equals(b)
+    heap OP*                        -> per op `RES;MSG;…;MSG` (result, then every object of the heap)
+         OP: n:U:P NewMessage | z:U:P &Message{UUID,Payload} | c:I Copy | a:I shallow struct copy (shares the map)
+             s:I:K:V Metadata.Set | g:I:K Metadata.Get | e:I:J Equals | u:I:U set UUID | p:I:P set Payload
+         RES: + created | cXY copied (copy.Equals(orig), orig.Equals(copy)) | . done | P panic | v<hex> | t | f
+    env DEST MSG                    -> ok E:<dest>/<uuid>/<payload>/<meta> W:<wrapper metadata> U:<dest> <MSG> | err:wrap
+    jenv DEST MSG                   -> hex of the JSON text of the envelope (stretch: Lean model of encoding/json) | err:wrap
+    jdec RAW                        -> dest/uuid/payload/meta as decoded from the JSON text RAW (Lean decoder vs json.Unmarshal) | none
+    fpub CFGTOPIC TOPIC MSG*        -> ok T:<topic published to> (<dest> <MSG>)* | err:wrap
+    unenv DECODED RAW               -> ok <dest> <MSG> | err:unmarshal | err:invalid      (DECODED = none | dest/uuid/payload/meta)
+    cqrs KIND UUIDOPT SER VALUE NAME-> ok <uuid|#> <metadata> <nameFromMessage> <value after Unmarshal> | err:marshal
+    reply SER VALUE ERR             -> ok <metadata> <value> <err> | err:marshal        (ERR: ~ = no error, else text)
+    unreply META VALUE              -> ok <value> <err>
+-/
 import WmModel.Basic
-def main : IO Unit := Wm.driverMain (fun _ => "bad-op")
+import WmModel.Value
+import WmModel.ValueCodec
+import WmModel.ValueJson
+open Wm Wm.Value
+
+/-! ### tokens -/
+
+def strOfHex (s : String) : Option String := do
+  let bs ← hexDec s
+  String.fromUTF8? (ByteArray.mk bs.toArray)
+
+def hexOfStr (s : String) : String := hexEnc s.toUTF8.toList
+
+def payloadOf (s : String) : Option (Option Bytes) :=
+  if s = "~" then some none else (hexDec s).map some
+
+def payloadTok : Option Bytes → String
+  | none => "~"
+  | some b => hexEnc b
+
+def entryOf (s : String) : Option (String × String) :=
+  match s.splitOn "=" with
+  | [k, v] => do pure (← strOfHex k, ← strOfHex v)
+  | _ => none
+
+def metaOf (s : String) : Option (Option Meta) :=
+  if s = "~" then some none
+  else if s = "-" then some (some [])
+  else ((s.splitOn ",").mapM entryOf).map some
+
+/-- canonical rendering: entries sorted by the hex of the key (= byte order of the key) -/
+def metaTok : Option Meta → String
+  | none => "~"
+  | some [] => "-"
+  | some m =>
+    let es := m.map fun (k, v) => (hexOfStr k, hexOfStr v)
+    let es := es.mergeSort fun a b => !(b.1 < a.1)
+    ",".intercalate (es.map fun (k, v) => k ++ "=" ++ v)
+
+def msgOf (s : String) : Option Msg :=
+  match s.splitOn "/" with
+  | [u, p, m] => do
+    let u ← strOfHex u
+    let p ← payloadOf p
+    let m ← metaOf m
+    if decide (NoDupKeys (m.getD [])) then pure ⟨u, p, m⟩ else none
+  | _ => none
+
+def msgTok (m : Msg) : String := hexOfStr m.uuid ++ "/" ++ payloadTok m.payload ++ "/" ++ metaTok m.metadata
+
+def tf (b : Bool) : String := if b then "t" else "f"
+
+/-! ### the property's notion of "coincide", written independently of `equals` -/
+
+def sortedEntries (m : Msg) : List (String × String) :=
+  (m.md.map fun (k, v) => (hexOfStr k, hexOfStr v)).mergeSort fun a b => !(b.1 < a.1)
+
+/-- UUID, payload bytes and the complete metadata key/value set coincide -/
+def coincide (a b : Msg) : Bool :=
+  a.uuid == b.uuid && a.bytes == b.bytes && sortedEntries a == sortedEntries b
+
+/-! ### heap programs -/
+
+def opOf (s : String) : Option Op :=
+  match s.splitOn ":" with
+  | ["n", u, p] => do pure (.new (← strOfHex u) (← payloadOf p))
+  | ["z", u, p] => do pure (.lit (← strOfHex u) (← payloadOf p))
+  | ["c", i] => do pure (.copy (← i.toNat?))
+  | ["a", i] => do pure (.alias (← i.toNat?))
+  | ["s", i, k, v] => do pure (.set (← i.toNat?) (← strOfHex k) (← strOfHex v))
+  | ["g", i, k] => do pure (.get (← i.toNat?) (← strOfHex k))
+  | ["e", i, j] => do pure (.equals (← i.toNat?) (← j.toNat?))
+  | ["u", i, u] => do pure (.setUuid (← i.toNat?) (← strOfHex u))
+  | ["p", i, p] => do pure (.setPayload (← i.toNat?) (← payloadOf p))
+  | _ => none
+
+def resTok : Res → String
+  | .created => "+"
+  | .copied x y => "c" ++ tf x ++ tf y
+  | .done => "."
+  | .panic => "P"
+  | .str s => "v" ++ hexOfStr s
+  | .bool b => tf b
+  | .bad => "!"
+
+def heapDump (h : Heap) : List String :=
+  (List.range h.objs.length).filterMap fun i => (h.view i).map msgTok
+
+def heapModel (ops : List Op) : String :=
+  let rs := run Heap.empty ops
+  if rs.any (fun r => r.1 == .bad) then "bad-op"
+  else if rs.isEmpty then "-"
+  else " ".intercalate (rs.map fun (r, h) => ";".intercalate (resTok r :: heapDump h))
+
+/-- one observed step: result token and the dump of every object -/
+def obsStepOf (s : String) : Option (String × List Msg) :=
+  match s.splitOn ";" with
+  | r :: ms => (ms.mapM msgOf).map fun ms => (r, ms)
+  | [] => none
+
+/-- The property on an observed heap run.  `cls` = alias class of every object, maintained from the
+    *operations* alone (`a:I` shares, everything else creates a fresh class). -/
+def heapMonitor (ops : List Op) (obs : List (String × List Msg)) : String := Id.run do
+  if ops.length != obs.length then return "bad-op"
+  let mut cls : Array Nat := #[]
+  let mut prev : Array Msg := #[]
+  let mut fresh := 0
+  for (op, (res, dump)) in ops.zip obs do
+    let cur := dump.toArray
+    -- (a `P` result is a write to a nil map; whether that panics is not a claim of this property)
+    match op with
+    | .new _ _ | .lit _ _ =>
+      cls := cls.push fresh; fresh := fresh + 1
+    | .alias i =>
+      cls := cls.push (cls.getD i fresh); fresh := fresh + 1
+    | .copy i =>
+      cls := cls.push fresh; fresh := fresh + 1
+      -- "Copy() yields a message that Equals the original"
+      if res != "ctt" then return "violated:copy_equals"
+      match cur[prev.size]?, cur[i]? with
+      | some c, some o => if !coincide c o then return "violated:copy_equals"
+      | _, _ => return "bad-op"
+    | .set i _ _ =>
+      -- "… and owns its metadata": a write through one object is invisible through every object that is not
+      -- a declared alias of it – in particular through its copies and through what it was copied from
+      for x in [0:prev.size] do
+        if cls.getD x 0 != cls.getD i 0 then
+          match prev[x]?, cur[x]? with
+          | some a, some b => if !(decide (a = b)) then return "violated:copy_owns_metadata"
+          | _, _ => return "bad-op"
+    | .equals i j =>
+      -- "Equals is true exactly when UUID, payload bytes and the complete metadata key/value set coincide"
+      match cur[i]?, cur[j]? with
+      | some a, some b =>
+        if res != tf (coincide a b) then return "violated:equals_iff"
+      | _, _ => return "bad-op"
+    | _ => pure ()
+    prev := cur
+  return "ok"
+
+/-! ### codecs -/
+
+def errTok : EnvErr → String
+  | .unknownDestination => "err:wrap"
+  | .cannotMarshal => "err:marshal"
+  | .cannotUnmarshal => "err:unmarshal"
+  | .invalidEnvelope => "err:invalid"
+
+def envTok (e : Envelope) : String :=
+  hexOfStr e.dest ++ "/" ++ hexOfStr e.uuid ++ "/" ++ payloadTok e.payload ++ "/" ++ metaTok e.metadata
+
+def envOf (s : String) : Option Envelope :=
+  match s.splitOn "/" with
+  | [d, u, p, m] => do
+    let d ← strOfHex d
+    let u ← strOfHex u
+    let p ← payloadOf p
+    let m ← metaOf m
+    if decide (NoDupKeys (m.getD [])) then pure ⟨d, u, p, m⟩ else none
+  | _ => none
+
+def envModel (dest : String) (m : Msg) : String :=
+  match newEnvelope dest m, wrap Wire.envCodec "#" dest m with
+  | .ok e, .ok w =>
+    match unwrap Wire.envCodec w with
+    | .ok (d, m') => s!"ok E:{envTok e} W:{metaTok w.metadata} U:{hexOfStr d} {msgTok m'}"
+    | .error e => errTok e
+  | .error e, _ => errTok e
+  | _, .error e => errTok e
+
+def fpubModel (cfg topic : String) (ms : List Msg) : String :=
+  match publisherPublish Wire.envCodec cfg topic (ms.map fun m => ("#", m)) with
+  | .error e => errTok e
+  | .ok (t, ws) =>
+    let parts := ws.map fun w =>
+      match unwrap Wire.envCodec w with
+      | .ok (d, m') => hexOfStr d ++ " " ++ msgTok m'
+      | .error e => errTok e
+    " ".intercalate (("ok T:" ++ hexOfStr t) :: parts)
+
+/-- for the malformed stream the decoder's verdict is data of the request -/
+def unenvModel (d : Option Envelope) : String :=
+  let c : Codec Envelope := ⟨fun _ => none, fun _ => d⟩
+  match unwrap c ⟨"", some [], some []⟩ with
+  | .ok (dst, m) => s!"ok {hexOfStr dst} {msgTok m}"
+  | .error e => errTok e
+
+/-- values are opaque tokens; `ser = false`: the library refuses the value -/
+def tokCodec (ser : Bool) : Codec Bytes := if ser then Wire.tokenCodec else ⟨fun _ => none, fun _ => none⟩
+
+def cqrsModel (uuid : Option String) (ser : Bool) (value : Bytes) (name : String) : String :=
+  let mar : Marshaler Bytes := ⟨tokCodec ser, fun _ => name⟩
+  match marshal mar (uuid.getD "#") value with
+  | none => "err:marshal"
+  | some msg =>
+    match unmarshal mar msg with
+    | none => "err:unmarshal"
+    | some v =>
+      let u := match uuid with | none => "#" | some u => hexOfStr u
+      s!"ok {u} {metaTok msg.metadata} {hexOfStr (nameFromMessage msg)} {hexEnc v}"
+
+def errOptTok : Option String → String
+  | none => "~"
+  | some e => hexOfStr e
+
+def errOptOf (s : String) : Option (Option String) :=
+  if s = "~" then some none else (strOfHex s).map some
+
+def replyModel (ser : Bool) (value : Bytes) (err : Option String) : String :=
+  match marshalReply (tokCodec ser) "#" ⟨value, err⟩ with
+  | none => "err:marshal"
+  | some msg =>
+    match unmarshalReply (tokCodec ser) msg with
+    | none => "err:unmarshal"
+    | some r => s!"ok {metaTok msg.metadata} {hexEnc r.result} {errOptTok r.err}"
+
+def unreplyModel (md : Option Meta) (value : Bytes) : String :=
+  match unmarshalReply Wire.tokenCodec ⟨"", some value, md⟩ with
+  | none => "err:unmarshal"
+  | some r => s!"ok {hexEnc r.result} {errOptTok r.err}"
+
+def boolOf (s : String) : Option Bool :=
+  if s = "s" then some true else if s = "u" then some false else none
+
+def uuidOptOf (s : String) : Option (Option String) :=
+  if s = "d" then some none
+  else match s.splitOn ":" with
+    | ["c", u] => (strOfHex u).map some
+    | _ => none
+
+/-! ### dispatch -/
+
+def splitObs (ws : List String) : List String × List String :=
+  (ws.takeWhile (· != "##"), (ws.dropWhile (· != "##")).drop 1)
+
+def model (ws : List String) : String :=
+  match ws with
+  | ["pair", a, b] =>
+    match msgOf a, msgOf b with
+    | some a, some b => tf (equals a b) ++ tf (equals b a) ++ tf (equals a a) ++ tf (equals b b)
+    | _, _ => "bad-op"
+  | "heap" :: ops =>
+    match ops.mapM opOf with
+    | some ops => heapModel ops
+    | none => "bad-op"
+  | ["env", d, m] =>
+    match strOfHex d, msgOf m with
+    | some d, some m => envModel d m
+    | _, _ => "bad-op"
+  | ["jenv", d, m] =>
+    -- stretch: the JSON text encoding/json produces for the envelope, byte for byte
+    match strOfHex d, msgOf m with
+    | some d, some m =>
+      match newEnvelope d m with
+      | .ok e => hexEnc (Json.jsonEnvelope e)
+      | .error e => errTok e
+    | _, _ => "bad-op"
+  | ["jdec", raw] =>
+    -- stretch: the Lean decoder on a JSON text the real encoder produced, against what json.Unmarshal makes of it
+    match hexDec raw with
+    | some b =>
+      match Json.jsonCodec.dec b with
+      | some e => envTok e
+      | none => "none"
+    | none => "bad-op"
+  | "fpub" :: cfg :: topic :: ms =>
+    match strOfHex cfg, strOfHex topic, ms.mapM msgOf with
+    | some cfg, some topic, some ms => fpubModel cfg topic ms
+    | _, _, _ => "bad-op"
+  | ["unenv", d, _raw] =>
+    if d = "none" then unenvModel none
+    else match envOf d with
+      | some e => unenvModel (some e)
+      | none => "bad-op"
+  | ["cqrs", kind, u, ser, v, n, _gen] =>
+    if kind != "json" && kind != "proto" && kind != "gogo" then "bad-op" else
+    match uuidOptOf u, boolOf ser, hexDec v, strOfHex n with
+    | some u, some ser, some v, some n => cqrsModel u ser v n
+    | _, _, _, _ => "bad-op"
+  | ["reply", ser, v, e, _gen] =>
+    match boolOf ser, hexDec v, errOptOf e with
+    | some ser, some v, some e => replyModel ser v e
+    | _, _, _ => "bad-op"
+  | ["unreply", md, v, _seed] =>
+    match metaOf md, hexDec v with
+    | some md, some v => if decide (NoDupKeys (md.getD [])) then unreplyModel md v else "bad-op"
+    | _, _ => "bad-op"
+  | _ => "bad-op"
+
+def monitor (req obs : List String) : String :=
+  match req with
+  | ["pair", a, b] =>
+    match msgOf a, msgOf b, obs with
+    | some a, some b, [o] =>
+      if o.length != 4 || o.any (fun c => c != 't' && c != 'f' && c != 'P') then "bad-op"
+      else
+        -- a panicking call did not answer `true`
+        let o := String.ofList (o.toList.map fun c => if c == 'P' then 'f' else c)
+        let want := tf (coincide a b) ++ tf (coincide b a) ++ "tt"
+        if o == want then "ok"
+        else if (o.toList.drop 2) != ['t', 't'] then "violated:equals_refl"
+        else "violated:equals_iff"
+    | _, _, _ => "bad-op"
+  | "heap" :: ops =>
+    match ops.mapM opOf with
+    | none => "bad-op"
+    | some ops =>
+      let obs := if obs == ["-"] then [] else obs
+      match obs.mapM obsStepOf with
+      | none => "bad-op"
+      | some obs => heapMonitor ops obs
+  | ["env", d, m] =>
+    match strOfHex d, msgOf m with
+    | some d, some m =>
+      if d = "" then "ok"      -- the property speaks about non-empty destination topics only
+      else match obs with
+        | ["ok", _, _, u, m'] =>
+          match (if u.startsWith "U:" then strOfHex (u.drop 2).toString else none), msgOf m' with
+          | some d', some m' =>
+            if d' != d then "violated:envelope_round_trip_destination"
+            else if m'.uuid != m.uuid then "violated:envelope_round_trip_uuid"
+            else if m'.bytes != m.bytes then "violated:envelope_round_trip_payload"
+            else if !coincide m' m then "violated:envelope_round_trip_metadata"
+            else "ok"
+          | _, _ => "bad-op"
+        | [e] => if e.startsWith "err:" then "violated:envelope_round_trip_error" else "bad-op"
+        | _ => "bad-op"
+    | _, _ => "bad-op"
+  | "fpub" :: _cfg :: topic :: ms =>
+    match strOfHex topic, ms.mapM msgOf with
+    | some topic, some ms =>
+      if topic = "" then "ok" else
+      match obs with
+      | "ok" :: _t :: rest =>
+        if rest.length != 2 * ms.length then "violated:envelope_round_trip_count" else
+        let rec go : List Msg → List String → String
+          | [], _ => "ok"
+          | m :: ms, d' :: m' :: rest =>
+            match strOfHex d', msgOf m' with
+            | some d', some m' =>
+              if d' != topic then "violated:envelope_round_trip_destination"
+              else if !coincide m' m then "violated:envelope_round_trip_message"
+              else go ms rest
+            | _, _ => "bad-op"
+          | _, _ => "bad-op"
+        go ms rest
+      | [e] => if e.startsWith "err:" then "violated:envelope_round_trip_error" else "bad-op"
+      | _ => "bad-op"
+    | _, _ => "bad-op"
+  | ["jenv", _, _] => if obs.isEmpty then "bad-op" else "ok"     -- wire text of the envelope: no clause of C16 (model diff only)
+  | ["jdec", _] => if obs.isEmpty then "bad-op" else "ok"        -- decoder agreement: a test of the library, no clause of C16
+  | ["unenv", _, _] => if obs.isEmpty then "bad-op" else "ok"     -- malformed envelopes: no clause of C16 (model diff only)
+  | ["cqrs", _kind, _u, ser, v, n, _gen] =>
+    match boolOf ser, hexDec v, strOfHex n with
+    | some ser, some v, some n =>
+      if !ser then (if obs.isEmpty then "bad-op" else "ok")   -- not serialisable: outside the quantifier
+      else match obs with
+        | ["ok", _u, _md, nfm, v'] =>
+          match strOfHex nfm, hexDec v' with
+          | some nfm, some v' =>
+            if v' != v then "violated:marshal_round_trip"
+            else if nfm != n then "violated:name_from_message"
+            else "ok"
+          | _, _ => "bad-op"
+        | [e] => if e.startsWith "err:" then "violated:marshal_round_trip_error" else "bad-op"
+        | _ => "bad-op"
+    | _, _, _ => "bad-op"
+  | ["reply", ser, v, e, _gen] =>
+    match boolOf ser, hexDec v, errOptOf e with
+    | some ser, some v, some e =>
+      if !ser then (if obs.isEmpty then "bad-op" else "ok")
+      else match obs with
+        | ["ok", _md, v', e'] =>
+          match hexDec v', errOptOf e' with
+          | some v', some e' =>
+            if v' != v then "violated:reply_round_trip_result"
+            else if e' != e then "violated:reply_round_trip_error_text"
+            else "ok"
+          | _, _ => "bad-op"
+        | [x] => if x.startsWith "err:" then "violated:reply_round_trip_error" else "bad-op"
+        | _ => "bad-op"
+    | _, _, _ => "bad-op"
+  | ["unreply", _, _, _] => if obs.isEmpty then "bad-op" else "ok"  -- decoding hand-made messages: model diff only
+  | _ => "bad-op"
+
+def handle (line : String) : String :=
+  match line.splitOn " " with
+  | "M" :: ws => model ws
+  | "P" :: ws =>
+    let (req, obs) := splitObs ws
+    monitor req obs
+  | _ => "bad-op"
+
+def main : IO Unit := driverMain handle
